@@ -197,6 +197,17 @@ Proof.
 Qed.
 
 (* ------------------------------------------------------------------ Session.flush *)
+(* what a flush that reached its end leaves: a new innermost frame over the same snapshot, nothing pending *)
+Definition FlushDone (s0 : sess) (g : ghost) (f : frame) (rest : list frame) (sZ : sess) : Prop :=
+  exists fZ, stack sZ = fZ :: rest /\
+        fid fZ = fid f /\ fnested fZ = fnested f /\ fstate fZ = fstate f /\ frbexc fZ = frbexc f /\ fconn fZ = fconn f /\
+        Good (objs sZ) (nobj s0) (work sZ) [] [] /\ J (objs sZ) (nobj s0) /\ Rel g fZ (objs sZ) (nobj s0) [] [] (work sZ) /\
+        (forall x, oin (objs sZ x) = true -> omod (objs sZ x) = false) /\
+        snew sZ = [] /\ sdel sZ = [] /\ nobj sZ = nobj s0 /\ committed sZ = committed s0 /\ saves sZ = saves s0 /\
+        nfid sZ = nfid s0 /\ eoc sZ = eoc s0 /\ handles sZ = handles s0.
+
+(* the body of the subtransaction: a failure happens either before finalize_flush_changes (only loads and
+   statements so far) or after it (C32: after_flush_postexec raises) *)
 Definition InnerSpec (inner : list nat -> list nat -> list nat -> M) : Prop :=
   forall s0 g f rest dirty, GClean g -> stack s0 = f :: rest ->
     Good (objs s0) (nobj s0) (work s0) (snew s0) (sdel s0) -> J (objs s0) (nobj s0) ->
@@ -204,19 +215,25 @@ Definition InnerSpec (inner : list nat -> list nat -> list nat -> M) : Prop :=
     (forall x, In x dirty <-> (x < nobj s0 /\ oin (objs s0 x) = true /\ omod (objs s0 x) = true /\ ~ In x (sdel s0))) ->
     NoDup dirty ->
     forall r sZ, inner (snew s0) dirty (sdel s0) s0 = (r, sZ) -> r <> Unmodelled ->
-    (r = Ok -> exists fZ, stack sZ = fZ :: rest /\
-        fid fZ = fid f /\ fnested fZ = fnested f /\ fstate fZ = fstate f /\ frbexc fZ = frbexc f /\ fconn fZ = fconn f /\
-        Good (objs sZ) (nobj s0) (work sZ) [] [] /\ J (objs sZ) (nobj s0) /\ Rel g fZ (objs sZ) (nobj s0) [] [] (work sZ) /\
-        (forall x, oin (objs sZ x) = true -> omod (objs sZ x) = false) /\
-        snew sZ = [] /\ sdel sZ = [] /\ nobj sZ = nobj s0 /\ committed sZ = committed s0 /\ saves sZ = saves s0 /\
-        nfid sZ = nfid s0 /\ eoc sZ = eoc s0 /\ handles sZ = handles s0) /\
-    (r <> Ok -> SigL s0 g f sZ).
+    (r = Ok -> FlushDone s0 g f rest sZ) /\
+    (r <> Ok -> SigL s0 g f sZ \/ FlushDone s0 g f rest sZ).
 
-Lemma flush_body_inner : InnerSpec flush_body.
+Lemma flush_body_k_inner : forall k c, InnerSpec (flush_body_k k c).
 Proof.
-  intros s0 g f rest dirty GC Hs G Jh R Hd Hnd r sZ H Hr.
-  apply (flush_body_spec s0 g f rest dirty GC Hs G Jh R Hd Hnd r sZ H Hr).
+  intros k c s0 g f rest dirty GC Hs G Jh R Hd Hnd r sZ H Hr.
+  destruct (flush_body_spec s0 g f rest dirty GC Hs G Jh R Hd Hnd k c r sZ H Hr) as [A B].
+  split; [exact A|]. intros X. left. exact (B X).
 Qed.
+
+Lemma SigL_refl : forall st g f, Good (objs st) (nobj st) (work st) (snew st) (sdel st) -> J (objs st) (nobj st) ->
+  Rel g f (objs st) (nobj st) (snew st) (sdel st) (work st) -> SigL st g f st.
+Proof.
+  intros st g f G Jh R. constructor; auto.
+  - apply sbo_refl.
+  - intros x. apply obj_le_refl.
+Qed.
+Lemma flush_body_inner : InnerSpec flush_body.
+Proof. apply flush_body_k_inner. Qed.
 
 Definition hd_state (st : sess) : option tstate := match stack st with f :: _ => Some (fstate f) | [] => None end.
 Definition ids (st : sess) : list (nat * bool) := map (fun f => (fid f, fnested f)) (stack st).
@@ -270,7 +287,7 @@ Proof.
   { intros X. subst r2. inversion H; subst. congruence. }
   destruct (HI sp g fp restp dirty GC Esp (c_good _ _ Cp) (c_j _ _ Cp) R2 Hd Hnd r2 sZ Ein Hr2) as [Hok Herr].
   pose proof (lists_ids _ _ Q9) as Hrest.
-  destruct r2.
+  destruct r2 as [|z|].
   - (* success *)
     inversion H; subst r st'. destruct (Hok eq_refl) as (fZ & SZ & I1 & I2 & I3 & I4 & I5 & G' & J' & R' & Cl & N1 & N2 & N3 & N4 & N5 & N6 & N7 & N8).
     destruct (flush_ok_core sp gs g gs' fp restp sZ fZ Cp Esp Hfp Hcp Eg SZ I1 I2 I3 I4 I5 G' J' R' Cl N1 N2 N3 N4 N5 N6) as [CZ ClZ].
@@ -280,18 +297,37 @@ Proof.
     split; [exact Q9|]. split; [intros _; split; [exact ClZ|congruence]|intros X; congruence].
   - (* failure *)
     specialize (Herr ltac:(discriminate)).
-    destruct (flush_fail_core sp gs g gs' fp restp sZ Cp Esp Hfp Hcp Eg Herr) as (s4 & f4 & E4 & C4 & S4 & F4 & I4 & Cl4 & K1 & K2 & K3 & K4 & K5).
-    rewrite E4 in H. inversion H; subst r st'.
-    split; [exact C4|]. unfold ids, hd_state. rewrite S4, Es. cbn [map tl].
-    assert (Hn4 : fnested f4 = fnested fp).
-    { (* the frame keeps its kind: read it off the invariant *)
-      destruct C4 as [_ _ D4 _ _]. destruct D4 as [F _ _ _ _]. rewrite S4 in F. cbn in F. destruct F as [_ [_ [X _]]].
-      destruct Cp as [_ _ Dp _ _]. destruct Dp as [Fp _ _ _ _]. rewrite Esp in Fp. cbn in Fp. destruct Fp as [_ [_ [Y _]]].
-      destruct (fnested f4) eqn:E1, (fnested fp) eqn:E2; auto.
-      - destruct X as [X _]. destruct Y as [_ Y]. specialize (X eq_refl). specialize (Y X). discriminate.
-      - destruct X as [_ X]. destruct Y as [Y _]. specialize (Y eq_refl). specialize (X Y). discriminate. }
-    split; [rewrite I4, Hn4, Q6, Q7, Hrest; reflexivity|].
-    split; [congruence|]. split; [congruence|]. split; [congruence|]. split; [congruence|]. split; [congruence|].
-    split; [exact Q9|]. split; [intros X; congruence|]. intros _. right. rewrite F4, Hf. auto.
+    assert (Fin : forall sp' fp' sZ', Core sp' gs -> stack sp' = fp' :: restp -> fstate fp' = ACTIVE -> fconn fp' = true ->
+              SigL sp' g fp' sZ' -> fid fp' = fid fp -> fnested fp' = fnested fp ->
+              committed sp' = committed sp -> nfid sp' = nfid sp -> nobj sp' = nobj sp -> handles sp' = handles sp -> eoc sp' = eoc sp ->
+              (match flush_fail sZ' with (Ok, st3) => (Err z, st3) | r => r end) = (r, st') ->
+              Core st' gs /\ ids st' = ids st /\ nfid st' = nfid st /\ committed st' = committed st /\
+              nobj st' = nobj st /\ handles st' = handles st /\ eoc st' = eoc st /\
+              map lists_of (tl (stack st')) = map lists_of (tl (f :: rest)) /\
+              (r = Ok -> is_clean st' = true /\ hd_state st' = hd_state st) /\
+              (r <> Ok -> hd_state st' = hd_state st \/ (hd_state st = Some ACTIVE /\ hd_state st' = Some DEACTIVE /\ is_clean st' = true))).
+    { intros sp' fp' sZ' Cp' Esp' Hfp' Hcp' L' J1 J2 J3 J4 J5 J6 J7 H'.
+      destruct (flush_fail_core sp' gs g gs' fp' restp sZ' Cp' Esp' Hfp' Hcp' Eg L') as (s4 & f4 & E4 & C4 & S4 & F4 & I4 & Cl4 & K1 & K2 & K3 & K4 & K5).
+      rewrite E4 in H'. inversion H'; subst r st'.
+      split; [exact C4|]. unfold ids, hd_state. rewrite S4, Es. cbn [map tl].
+      assert (Hn4 : fnested f4 = fnested fp').
+      { (* the frame keeps its kind: read it off the invariant *)
+        destruct C4 as [_ _ D4 _ _]. destruct D4 as [F _ _ _ _]. rewrite S4 in F. cbn in F. destruct F as [_ [_ [X _]]].
+        destruct Cp' as [_ _ Dp _ _]. destruct Dp as [Fp _ _ _ _]. rewrite Esp' in Fp. cbn in Fp. destruct Fp as [_ [_ [Y _]]].
+        destruct (fnested f4) eqn:E1, (fnested fp') eqn:E2; auto.
+        - destruct X as [X _]. destruct Y as [_ Y]. specialize (X eq_refl). specialize (Y X). discriminate.
+        - destruct X as [_ X]. destruct Y as [Y _]. specialize (Y eq_refl). specialize (X Y). discriminate. }
+      split; [rewrite I4, Hn4, J1, J2, Q6, Q7, Hrest; reflexivity|].
+      split; [congruence|]. split; [congruence|]. split; [congruence|]. split; [congruence|]. split; [congruence|].
+      split; [exact Q9|]. split; [intros X; congruence|]. intros _. right. rewrite F4, Hf. auto. }
+    destruct Herr as [Herr|Hdone].
+    + apply (Fin sp fp sZ Cp Esp Hfp Hcp Herr); auto.
+    + destruct Hdone as (fZ & SZ & I1 & I2 & I3 & I4 & I5 & G' & J' & R' & Cl & N1 & N2 & N3 & N4 & N5 & N6 & N7 & N8).
+      destruct (flush_ok_core sp gs g gs' fp restp sZ fZ Cp Esp Hfp Hcp Eg SZ I1 I2 I3 I4 I5 G' J' R' Cl N1 N2 N3 N4 N5 N6) as [CZ ClZ].
+      apply (Fin sZ fZ sZ CZ SZ); try congruence.
+      apply SigL_refl.
+      * rewrite N1, N2, N3. exact G'.
+      * rewrite N3. exact J'.
+      * rewrite N1, N2, N3. exact R'.
   - congruence.
 Qed.
